@@ -406,7 +406,7 @@ func (c Cfg) New() goldmark.Markdown {
 }
 
 // Channels lists the ways NewVia can hand the same options to the library.
-var Channels = []string{"standard", "direct-constructors", "late-AddOptions", "split", "explicit-false", "heading-parser-constructors", "generic-parser-WithOption"}
+var Channels = []string{"standard", "direct-constructors", "late-AddOptions", "split", "explicit-false", "heading-parser-constructors", "generic-parser-WithOption", "one-With-call-per-option"}
 
 // explicitRendererOptions returns the renderer options of c with every switch that is off passed explicitly as
 // renderer.WithOption(name, false) (the generic option channel every node renderer's SetOption sees).
@@ -497,6 +497,18 @@ func (c Cfg) NewVia(ch int) goldmark.Markdown {
 		p := parser.NewParser(parser.WithBlockParsers(bps...), parser.WithInlineParsers(parser.DefaultInlineParsers()...),
 			parser.WithParagraphTransformers(parser.DefaultParagraphTransformers()...))
 		return goldmark.New(goldmark.WithParser(p), goldmark.WithExtensions(c.Extenders()...), goldmark.WithRendererOptions(c.RendererOptions()...))
+	}
+	if ch == 7 {
+		// every option in a With…Options call of its own, extension first, followed by empty calls
+		opts := []goldmark.Option{goldmark.WithExtensions(c.Extenders()...)}
+		for _, o := range c.ParserOptions() {
+			opts = append(opts, goldmark.WithParserOptions(o))
+		}
+		for _, o := range c.RendererOptions() {
+			opts = append(opts, goldmark.WithRendererOptions(o))
+		}
+		opts = append(opts, goldmark.WithParserOptions(), goldmark.WithRendererOptions(), goldmark.WithExtensions())
+		return goldmark.New(opts...)
 	}
 	if ch == 6 {
 		// parser options through the generic name/value channel
